@@ -2,6 +2,7 @@
 modules, the in-process fake transport with fault injection, construction of
 connection DAGs from JSON specs, and execution of request ops."""
 
+import collections.abc
 import base64
 import email.message
 import http.client
@@ -341,3 +342,31 @@ def install_seams(rng_seed, log):
     tr = Transport(log)
     tr.install()
     return shim, tr
+
+
+class CIHeaders(collections.abc.MutableMapping):
+    """a caller's own headers mapping: case-insensitive names (like the one of the requests library),
+    with a copy() that keeps the type"""
+
+    def __init__(self, items=()):
+        self._d = {}
+        for k, v in dict(items).items():
+            self[k] = v
+
+    def __setitem__(self, k, v):
+        self._d[k.lower()] = (k, v)
+
+    def __getitem__(self, k):
+        return self._d[k.lower()][1]
+
+    def __delitem__(self, k):
+        del self._d[k.lower()]
+
+    def __iter__(self):
+        return (k for k, _ in self._d.values())
+
+    def __len__(self):
+        return len(self._d)
+
+    def copy(self):
+        return CIHeaders(self.items())
